@@ -142,8 +142,12 @@ Pass(t, v) ==
 \* The abstract value NaNV of a FLOAT leaf stands for NaN: a present, non-zero value that every built-in comparison
 \* rejects (user tests see it like any other value).
 NaNV == 8
+\* The same abstract value of a TIME leaf stands for the zero instant in a zone other than UTC: not the Go zero value (so it
+\* is present in Validate too), before every other instant, equal to none.
 PassN(node, t, v) ==
-  IF node.k = "prim" /\ node.ty = "float" /\ v = NaNV /\ ~t.user THEN FALSE ELSE Pass(t, v)
+  IF node.k = "prim" /\ node.ty = "float" /\ v = NaNV /\ ~t.user THEN FALSE
+  ELSE IF node.k = "prim" /\ node.ty = "time" /\ v = NaNV /\ ~t.user THEN t.kind = "lt"
+  ELSE Pass(t, v)
 
 \* ---- bags ---------------------------------------------------------------
 RangeOf(s) == {s[i] : i \in DOMAIN s}
